@@ -256,6 +256,14 @@ func newSSHWorld(n int, allow [][]bool) *secWorld {
 		}
 		nd2 := nd
 		record := func(src sshswarm.Addr, payload []byte, viaAsk bool) {
+			if !viaAsk && !bytes.HasPrefix(payload, []byte("reply-")) {
+				reply := append([]byte("reply-"), payload...)
+				go func() {
+					rctx, rcf := context.WithTimeout(context.Background(), time.Second)
+					defer rcf()
+					sw.Tell(rctx, src, p2p.IOVec{reply}) // goes back over the connection the message arrived on
+				}()
+			}
 			d := secDelivery{payload: append([]byte{}, payload...), srcOwner: -1, keyOwner: -1, viaAsk: viaAsk}
 			for j, fp := range fps {
 				if fp == src.Fingerprint {
@@ -366,6 +374,21 @@ func c04Case(c *ctxT, r *gen.R, mk func(int, [][]bool) *secWorld, whitelisting b
 			res = "error"
 		}
 		obs = append(obs, sx.L(sx.I(rec.from), sx.I(rec.ident), sx.I(rec.loc), sx.S(res), sx.L(ds...)))
+		if w.kind == "sshswarm" && rec.ident == rec.loc && !rec.ask {
+			// the receiver answered over the same connection: a record of its own (from = the replier)
+			reply := append([]byte("reply-"), payload...)
+			var rs []sx.V
+			for _, nd := range w.nodes {
+				nd.mu.Lock()
+				for _, d := range nd.got {
+					if bytes.Equal(d.payload, reply) {
+						rs = append(rs, sx.L(sx.I(nd.idx), sxZ(int64(d.srcOwner)), sxZ(int64(d.keyOwner))))
+					}
+				}
+				nd.mu.Unlock()
+			}
+			obs = append(obs, sx.L(sx.I(rec.loc), sx.I(rec.from), sx.I(rec.from), sx.S("ok"), sx.L(rs...)))
+		}
 	}
 	rows := make([]sx.V, n)
 	for i := range rows {
@@ -393,6 +416,9 @@ func runC04(c *ctxT) {
 	}
 	for i := 0; i < c.scale(6, 30); i++ {
 		keClaimAdversary(c, i)
+	}
+	for i := 0; i < c.scale(4, 20); i++ {
+		keOvertake(c, i)
 	}
 	for i := 0; i < n; i++ {
 		r := c.rng.Fork()
